@@ -849,8 +849,11 @@ fn contend_case(rng: &mut Rng, out: &mut Out, wl: &Arc<WriteLog>, dir: &str, idx
     };
     out.count(match (small, failing) { (true, true) => "contend small+failing device", (true, false) => "contend small (filling) device", (false, true) => "contend failing device", _ => "contend healthy device" });
     wl.seen.store(0, O::SeqCst);
-    let fa = if failing { rng.range(3, 60) } else { 0 };
+    let mode = if failing { *rng.pick(&[0u64, 0, 1, 1, 2, 3]) } else { 0 };
+    wl.fail_mode.store(mode, O::SeqCst);
+    let fa = if failing { if mode == 0 { rng.range(3, 60) } else { rng.range(1, 12) } } else { 0 };
     wl.fail_after.store(fa, O::SeqCst);
+    if failing { out.count(match mode { 1 => "contend failure: record-data writes only (retryable, never poisoned)", 2 => "contend failure: fsyncs only", 3 => "contend failure: journal / metadata writes only", _ => "contend failure: every write and fsync" }); }
     // half of the failing devices recover after a short burst of failed writes / fsyncs
     let transient = failing && rng.chance(2, 3);
     wl.fail_until.store(if transient { fa + rng.range(1, 12) } else { u64::MAX }, O::SeqCst);
@@ -899,9 +902,16 @@ fn contend_case(rng: &mut Rng, out: &mut Out, wl: &Arc<WriteLog>, dir: &str, idx
         wl.fail_after.store(0, O::SeqCst);
         return;
     }
-    if !with_watchdog(move || drop(store)) {
-        out.failures.push(format!("C18\tcontention case {}: dropping the store did not finish (blocks={}, failing={})\t-", idx, blocks, failing));
+    let td = Instant::now();
+    // (the final flush retries a retryable error 1024 times, each round a journal intent, a failing
+    // write and a journal clear: seconds on a loaded machine - three watchdog periods before it counts as stuck)
+    let dropper = std::thread::spawn(move || drop(store));
+    while !dropper.is_finished() && td.elapsed() < 3 * WATCHDOG { std::thread::sleep(Duration::from_millis(2)); }
+    if dropper.is_finished() { let _ = dropper.join(); } else {
+        out.failures.push(format!("C18\tcontention case {}: dropping the store did not finish within {:?} (blocks={}, failing={}, failure mode {}, {})\t-", idx, 3 * WATCHDOG, blocks, failing, mode, if transient { "transient" } else { "persistent" }));
     }
+    let ms = td.elapsed().as_millis();
+    out.count(&format!("contend drop took {}", if ms < 1000 { "< 1 s" } else if ms < 5000 { "1-5 s" } else if ms < 10000 { "5-10 s" } else { "> 10 s" }));
     wl.fail_after.store(0, O::SeqCst);
     out.count("contend case");
     let _ = std::fs::remove_file(&path);
@@ -972,6 +982,10 @@ struct WriteLog {
     /// … until this many have been seen (the device recovers)
     fail_until: std::sync::atomic::AtomicU64,
     seen: std::sync::atomic::AtomicU64,
+    /// what fails: 0 = every write and fsync; 1 = record-data writes only (journal, markers, metadata
+    /// and fsyncs keep working: the device is never poisoned, the error stays retryable); 2 = fsyncs only;
+    /// 3 = journal / metadata writes only
+    fail_mode: std::sync::atomic::AtomicU64,
 }
 
 impl feoxdb::verif::proto::Observer for WriteLog {
@@ -986,12 +1000,20 @@ impl feoxdb::verif::io::Observer for WriteLog {
     fn event(&self, kind: feoxdb::verif::io::Kind, _fd: i32, sector: u64, len: usize, data: &[u8]) -> feoxdb::verif::io::Decision {
         use feoxdb::verif::io::Kind as K;
         let fa = self.fail_after.load(std::sync::atomic::Ordering::SeqCst);
-        if fa > 0 && matches!(kind, K::Write | K::Fsync) {
+        let selected = match self.fail_mode.load(std::sync::atomic::Ordering::SeqCst) {
+            1 => kind == K::Write && sector >= 16 && data.len() >= 2 && data[0] == 0xCD && data[1] == 0xAB,
+            2 => kind == K::Fsync,
+            3 => kind == K::Write && sector < 16,
+            _ => matches!(kind, K::Write | K::Fsync),
+        };
+        if fa > 0 && selected {
             let n = self.seen.fetch_add(1, std::sync::atomic::Ordering::SeqCst);
             if n >= fa && n < self.fail_until.load(std::sync::atomic::Ordering::SeqCst) {
                 // a failing device is also a slow one: the caller sits in its I/O (holding whatever
                 // it holds) for a while before the error comes back
-                std::thread::sleep(Duration::from_millis(2));
+                // (only in the "everything fails" mode: the selective modes keep the error retryable, and
+                // the final flush at shutdown retries 1024 times)
+                if self.fail_mode.load(std::sync::atomic::Ordering::SeqCst) == 0 { std::thread::sleep(Duration::from_millis(2)); }
                 return feoxdb::verif::io::Decision::FailBefore;
             }
         }
@@ -1028,6 +1050,111 @@ fn with_watchdog<F: FnOnce() + Send + 'static>(f: F) -> bool {
         std::thread::sleep(Duration::from_millis(1));
     }
     if j.is_finished() { let _ = j.join(); true } else { false }
+}
+
+/// free-running: range scans and reads racing with every kind of update of the scanned keys
+/// (overwrite, CAS, increment-free: values are self-describing `<id>|<writer>|<round>|padding`),
+/// deletes and re-creations.  Every value a scan or a get returns must be one that was written
+/// for that very key; the run doubles as the AddressSanitizer workload for the epoch-protected
+/// index slots.
+fn scanrace_case(rng: &mut Rng, out: &mut Out, dir: &str, idx: u64) {
+    use std::sync::atomic::{AtomicBool, AtomicU64, Ordering as O};
+    feoxdb::verif::clock::unpin();
+    let cfg = Config { mem: rng.chance(2, 3), cache: rng.chance(1, 2) };
+    let path = format!("{}/scanrace{}.feox", dir, idx);
+    let ttl = rng.chance(1, 3);
+    let store = {
+        let mut b = FeoxStore::builder().hash_bits(6).enable_ttl(ttl).no_memory_limit();
+        if !cfg.mem {
+            let _ = std::fs::remove_file(&path);
+            b = b.device_path(path.clone()).file_size(256 * BS).enable_caching(cfg.cache);
+        }
+        match b.build() { Ok(s) => Arc::new(s), Err(_) => return }
+    };
+    let nkeys = rng.range(2, 12);
+    let key = |id: u64| format!("sr{:03}", id).into_bytes();
+    let val = |id: u64, w: u64, round: u64, pad: usize| { let mut v = format!("{}|{}|{}|", id, w, round).into_bytes(); v.resize(v.len() + pad, b'.'); v };
+    for id in 0..nkeys { let _ = store.insert(&key(id), &val(id, 9, 0, 8)); }
+    let stop = Arc::new(AtomicBool::new(false));
+    let bad: Arc<Mutex<Vec<String>>> = Arc::new(Mutex::new(vec![]));
+    let scans = Arc::new(AtomicU64::new(0));
+    let updates = Arc::new(AtomicU64::new(0));
+    let mut hs = vec![];
+    for w in 0..rng.range(1, 3) {
+        let (st, stop, updates) = (store.clone(), stop.clone(), updates.clone());
+        let mut r = Rng::new(rng.next() ^ (w + 1));
+        hs.push(std::thread::spawn(move || {
+            let mut round = 1u64;
+            while !stop.load(O::Relaxed) {
+                let id = r.below(nkeys);
+                let k = format!("sr{:03}", id).into_bytes();
+                let mut v = format!("{}|{}|{}|", id, w, round).into_bytes();
+                let pad = *r.pick(&[0usize, 8, 40, 300]);
+                v.resize(v.len() + pad, b'.');
+                match r.below(10) {
+                    0 => { let _ = st.delete(&k); }
+                    1 => { if let Ok(cur) = st.get(&k) { let _ = st.compare_and_swap(&k, &cur, &v); } }
+                    2 if ttl => { let _ = st.insert_with_ttl(&k, &v, 3600); }
+                    3 if ttl => { let _ = st.update_ttl(&k, 1800); }
+                    _ => { let _ = st.insert(&k, &v); }
+                }
+                round += 1;
+                updates.fetch_add(1, O::Relaxed);
+            }
+        }));
+    }
+    for _ in 0..rng.range(1, 3) {
+        let (st, stop, bad, scans) = (store.clone(), stop.clone(), bad.clone(), scans.clone());
+        let mut r = Rng::new(rng.next());
+        hs.push(std::thread::spawn(move || {
+            let genuine = |k: &[u8], v: &[u8]| -> bool {
+                let id: u64 = match std::str::from_utf8(&k[2..]).ok().and_then(|x| x.parse().ok()) { Some(i) => i, None => return false };
+                v.starts_with(format!("{}|", id).as_bytes()) && v.iter().filter(|c| **c == b'|').count() == 3
+            };
+            while !stop.load(O::Relaxed) {
+                if r.chance(3, 4) {
+                    match st.range_query(b"sr", b"ss", *r.pick(&[1usize, 3, 100])) {
+                        Ok(rows) => {
+                            for w in rows.windows(2) { if w[0].0 >= w[1].0 { bad.lock().unwrap().push(format!("range result not strictly ascending: {} then {}", hex(&w[0].0), hex(&w[1].0))); } }
+                            for (k, v) in &rows { if !genuine(k, v) { bad.lock().unwrap().push(format!("range_query returned for key {} a value that was never written for it: {}", String::from_utf8_lossy(k), String::from_utf8_lossy(&v[..v.len().min(40)]))); } }
+                        }
+                        Err(e) => bad.lock().unwrap().push(format!("range_query failed: {:?}", e)),
+                    }
+                } else {
+                    let id = r.below(nkeys);
+                    let k = format!("sr{:03}", id).into_bytes();
+                    if let Ok(v) = st.get(&k) { if !genuine(&k, &v) { bad.lock().unwrap().push(format!("get returned for key {} a value that was never written for it: {}", String::from_utf8_lossy(&k), String::from_utf8_lossy(&v[..v.len().min(40)]))); } }
+                }
+                scans.fetch_add(1, O::Relaxed);
+            }
+        }));
+    }
+    std::thread::sleep(Duration::from_millis(rng.range(60, 200)));
+    stop.store(true, O::Relaxed);
+    let t0 = Instant::now();
+    for h in hs {
+        while !h.is_finished() && t0.elapsed() < WATCHDOG { std::thread::sleep(Duration::from_millis(1)); }
+        if h.is_finished() {
+            if h.join().is_err() { bad.lock().unwrap().push("a thread of the scan race panicked".into()); }
+        } else {
+            out.failures.push("C18\ta thread of the free-running scan race did not finish\t-".into());
+            return;
+        }
+    }
+    out.count("scanrace case");
+    out.count(&format!("scanrace {}", if cfg.mem { "memory-only" } else if cfg.cache { "persistent+cache" } else { "persistent" }));
+    *out.hist.entry("scanrace scans".into()).or_insert(0) += scans.load(O::Relaxed);
+    *out.hist.entry("scanrace updates".into()).or_insert(0) += updates.load(O::Relaxed);
+    let bad = bad.lock().unwrap();
+    if let Some(b) = bad.first() {
+        let what = format!("scans / reads racing with updates ({} scans, {} updates, {} keys): {} ({} such observations)", scans.load(O::Relaxed), updates.load(O::Relaxed), nkeys, b, bad.len());
+        out.failures.push(format!("C14\t{}\t-", what));
+        out.failures.push(format!("C20\t{}\t-", what));
+    }
+    let st = store.clone();
+    drop(store);
+    if !with_watchdog(move || drop(st)) { out.failures.push("C18\tdrop of the store after a scan race did not return\t-".into()); }
+    let _ = std::fs::remove_file(&path);
 }
 
 /// one reader parked before / inside its device read while the key is rewritten or deleted,
@@ -1246,7 +1373,7 @@ fn main() {
     let get = |k: &str, d: u64| -> u64 { args.extra.iter().find_map(|e| e.strip_prefix(&format!("{}=", k)).map(|v| v.parse().unwrap())).unwrap_or(d) };
     let cases = get("cases", 200);
     let wl = Arc::new(WriteLog { enabled: std::sync::atomic::AtomicBool::new(false), writes: Mutex::new(vec![]), blocked: Mutex::new(vec![]), gate: Mutex::new((None, 0)), gate_cv: Condvar::new(),
-        fail_after: std::sync::atomic::AtomicU64::new(0), fail_until: std::sync::atomic::AtomicU64::new(u64::MAX), seen: std::sync::atomic::AtomicU64::new(0) });
+        fail_after: std::sync::atomic::AtomicU64::new(0), fail_until: std::sync::atomic::AtomicU64::new(u64::MAX), seen: std::sync::atomic::AtomicU64::new(0), fail_mode: std::sync::atomic::AtomicU64::new(0) });
     feoxdb::verif::io::set_observer(Some(wl.clone()));
     feoxdb::verif::proto::set_observer(Some(wl.clone()));
     for _ in 0..get("words", 0) {
@@ -1259,6 +1386,9 @@ fn main() {
     std::fs::write(format!("{}/conc.stress", args.out), stress_rows.iter().map(|l| format!("{}\n", l)).collect::<String>()).unwrap();
     for i in 0..get("scans", 0) {
         scan_case(&mut rng, &mut out, &ctl, &args.out, i);
+    }
+    for i in 0..get("scanrace", 0) {
+        scanrace_case(&mut rng, &mut out, &args.out, i);
     }
     for i in 0..get("contend", 0) {
         contend_case(&mut rng, &mut out, &wl, &args.out, i);
